@@ -83,6 +83,20 @@ func (i *IterationDurations) Update(other *IterationDurations) {
 	}
 }
 
+// take removes the accumulated values and returns them.
+//
+// Each value is swapped out atomically, so a concurrent Add is either part of the
+// returned values or stays accumulated for the next call - it is never lost.
+func (i *IterationDurations) take() *IterationDurations {
+	taken := &IterationDurations{}
+	taken.count.Store(i.count.Swap(0))
+	taken.sum.Store(i.sum.Swap(0))
+	taken.max.Store(i.max.Swap(0))
+	taken.min.Store(i.min.Swap(0))
+
+	return taken
+}
+
 func (i *IterationDurations) Reset() {
 	i.sum.Store(0)
 	i.count.Store(0)
@@ -100,9 +114,8 @@ func (d *DurationStats) Record(nanoseconds int64) {
 }
 
 func (d *DurationStats) CollectLifetime() (IterationDurationsSnapshot, IterationDurationsSnapshot) {
-	running := d.running.Snapshot()
-	d.lifetime.Update(&d.running)
-	d.running.Reset()
+	running := d.running.take()
+	d.lifetime.Update(running)
 
-	return running, d.lifetime.Snapshot()
+	return running.Snapshot(), d.lifetime.Snapshot()
 }
